@@ -207,7 +207,7 @@ def run(ctx: lib.Ctx) -> None:
             add(0, prefix_errors() + [f'{pname}.{c}'], 'real:protocol-names')
     # odd characters anywhere
     wide = alpha + PROTOCOLS + ODD
-    for _ in range(ctx.n(1500, 20000)):
+    for _ in range(ctx.n(1500, 10000)):
         n = ctx.rng.choice([1, 2, 3, 4, 4, 4, 5])
         chunks = [ctx.rng.choice(wide if ctx.rng.random() < 0.5 else alpha) for _ in range(n)]
         add(0, prefix_errors() + ['.'.join(chunks)], 'real:odd-characters')
@@ -224,7 +224,7 @@ def run(ctx: lib.Ctx) -> None:
         add(0, [e['id'] for e in fx['witness']['errors']], 'fixed-witness')
         ctx.corpus_cases += 1
     # substituted registries
-    per = ctx.n(120, 400)
+    per = ctx.n(120, 250)
     for ri in range(1, len(regs)):
         add(ri, [], 'empty')
         keys = list(regs[ri])
